@@ -71,7 +71,11 @@ func decodeTypeOf(f *ssa.Function, v ssa.Value) (string, *ssa.Call) {
 	return "", nil
 }
 
-func c17Accessors(c *Ctx) {
+func c17Accessors(c *Ctx) { c17AccessorsSel(c, nil) }
+
+// c17AccessorsSel: with a non-nil selection only the provenance and fallback rules of the named accessors run
+// (used by C13 for the accessors its matchers rely on)
+func c17AccessorsSel(c *Ctx, only map[string]bool) {
 	r := c.R
 	r.Decides = append(r.Decides,
 		"K1 table agreement: for each option code the typed accessor, the Opt* constructor and the printer table (getOption) use the same value type (listed exceptions: 54 printed as a list, 77 string/strings)",
@@ -140,6 +144,19 @@ func c17Accessors(c *Ctx) {
 		}
 	}
 	sort.Slice(accs, func(i, j int) bool { return funcKey(accs[i].fn) < funcKey(accs[j].fn) })
+	if only != nil {
+		n := 0
+		for _, a := range accs {
+			if only[a.fn.Name()] {
+				n++
+				c17Fallback(c, a)
+				c17Provenance(c, a, helpers)
+			}
+		}
+		r.Count("C17-K6-selected-accessors", n)
+		r.Expect("C17-K6-selected-accessors", len(only))
+		return
+	}
 	r.Count("C17-K1-accessors", len(accs))
 	r.Expect("C17-K1-accessors", 28)
 	// constructors: Opt* functions returning Option{Code: K, Value: T}
@@ -253,6 +270,27 @@ func c17Accessors(c *Ctx) {
 		}
 		c17Fallback(c, a)
 		c17StringTransform(c, a)
+		c17Provenance(c, a, helpers)
+	}
+	// the shared string helper itself returns the raw bytes as a string (no trimming for everybody)
+	for _, h := range helpers {
+		f := h.fn
+		if f.Signature.Results().Len() != 1 {
+			continue
+		}
+		if bt, ok := f.Signature.Results().At(0).Type().Underlying().(*types.Basic); !ok || bt.Info()&types.IsString == 0 {
+			continue
+		}
+		okAll := true
+		got := ""
+		for _, ret := range returnsOf(f) {
+			s := c.Sx().Of(ret.Results[0]).String()
+			if !(strings.HasPrefix(s, "conv[string](") && !strings.Contains(s, "call[strings.") && !strings.Contains(s, "call[bytes.")) && !strings.HasPrefix(s, "const(") {
+				okAll = false
+				got = s
+			}
+		}
+		r.Check(okAll, "C17-K5", shortName(f)+": the shared string helper returns string(raw value) unchanged", c.P.pos(f.Pos()), "symx of every return", "the helper every string accessor goes through returns "+got+": all string options are transformed, not only the three documented NUL-tolerant ones")
 	}
 	// K3 exactness of the value types
 	var decs []*ssa.Function
@@ -447,4 +485,85 @@ func c17StringTransform(c *Ctx, a *accInfo) {
 	r.OK("C17-K5", name+fmt.Sprintf(" (code %d): the string returned is the decoded value, at most with trailing NULs removed", a.code), c.P.pos(f.Pos()), "symx of every return", "")
 	r.Count("C17-K5-string-accessors", 1)
 	r.Expect("C17-K5-string-accessors", 6)
+}
+
+
+// c17Provenance: K6 — what an accessor returns derives only from the option it reads (through the lookup or
+// the Get* helper), from constants and from its own non-receiver parameters (the caller's default). Another
+// part of the packet (a header field, another option) mixed in on some path makes the accessor disagree with
+// the raw option bytes — e.g. ServerIdentifier() falling back to siaddr when option 54 is absent.
+func c17Provenance(c *Ctx, a *accInfo, helpers map[*ssa.Function]*accInfo) {
+	r := c.R
+	f := a.fn
+	if len(f.Params) == 0 {
+		return
+	}
+	recv := ssa.Value(f.Params[0])
+	isLookup := func(v ssa.Value) bool {
+		cl, ok := v.(*ssa.Call)
+		if !ok || cl.Call.StaticCallee() == nil {
+			return false
+		}
+		sf := cl.Call.StaticCallee()
+		if _, isH := helpers[sf]; isH {
+			return true
+		}
+		if sf.Name() == "Get" || sf.Name() == "Has" || sf.Name() == "GetOneOption" {
+			return true
+		}
+		return false
+	}
+	bad := ""
+	seen := map[ssa.Value]bool{}
+	var walk func(v ssa.Value, d int)
+	walk = func(v ssa.Value, d int) {
+		if v == nil || seen[v] || d > 12 || bad != "" {
+			return
+		}
+		seen[v] = true
+		if v == recv {
+			bad = "the receiver"
+			return
+		}
+		if isLookup(v) {
+			return
+		}
+		switch t := v.(type) {
+		case *ssa.Parameter, *ssa.Const, *ssa.Global, *ssa.FreeVar, *ssa.Function, *ssa.Builtin:
+			return
+		case *ssa.FieldAddr:
+			if t.X == recv {
+				bad = "field " + derefStruct(t.X.Type()).Field(t.Field).Name() + " of the packet"
+				return
+			}
+		case *ssa.Alloc:
+			// local cell: what is stored into it
+			for _, ref := range *t.Referrers() {
+				if st, ok := ref.(*ssa.Store); ok && st.Addr == ssa.Value(t) {
+					walk(st.Val, d+1)
+				}
+			}
+			return
+		}
+		in, ok := v.(ssa.Instruction)
+		if !ok {
+			return
+		}
+		var ops []*ssa.Value
+		for _, o := range in.Operands(ops) {
+			if *o != nil {
+				walk(*o, d+1)
+			}
+		}
+	}
+	for _, ret := range returnsOf(f) {
+		for _, res := range ret.Results {
+			if isErrorType(res.Type()) {
+				continue
+			}
+			walk(res, 0)
+		}
+	}
+	r.Check(bad == "", "C17-K6", fmt.Sprintf("%s (code %d): the result derives only from that option, constants and the caller's default", shortName(f), a.code), c.P.pos(f.Pos()), "dependency walk of every returned value stops at the option lookup",
+		"a returned value depends on "+bad+" without going through the option lookup: on some path the accessor reports something other than the interpretation of option "+fmt.Sprint(a.code))
 }
